@@ -18,10 +18,14 @@ CLAIMS = {
  "C16": ("tlc-volatile+guestmem", "Same states as C05 with the converse inclusion: after each recorded operation the bitmap of every region must not contain any page outside the specification's page set (reads, queries, derivations, stream-out and refused requests leave it unchanged; a failed descriptor read marks exactly its target).", "6 C16"),
  "C07": ("tlc-volatile+guestmem", "Every recorded call (all entry points of slices, regions, guest memory and bitmaps, arguments drawn from 0, len+-1, isize::MAX+-1, usize::MAX, top/bottom-of-space layouts) must not end in a panic unless the specification marks it as a documented index panic; the impl-shaped try_access / range arithmetic is written with trapping unchecked operators and TLC checks that no trap is reachable.", "6 C07"),
  "C18": ("tlc-volatile+guestmem", "Zero-length requests (empty buffers, zero-sized element types, zero counts) are ordinary members of the enumerated argument sets at slice, region and guest-memory level; the trace specification demands Ok and unchanged memory and bitmap for each of them, at mapped, unmapped, one-past and extreme addresses.", "6 C18"),
+ "C19": ("tlc-addrarith", "AddrArith.tla states the exact meaning of every address operation and transcribes checked_align_up / unchecked_align_up / mask; TLC checks transcription = meaning for every operand pair of an 8-bit word and checks the 16-bit-limb arithmetic used for 64-bit operands against integer arithmetic. The crate's own macro instantiated at 8 bits (hook) is driven over operand pairs and GuestAddress / MemoryRegionAddress over all pairings of values within 4 of 0, 2^32, 2^63, 2^64, all 64 alignments and random operands; every recorded result is validated by TLC.", "6 C19"),
+ "C20": ("tlc-endian", "Endian.tla models the wrapper exactly as the endian_type! macro builds it, as a function of the host byte order, and states round trip, wire format and exact equality on bytes; TLC checks them for every value of a small digit base on both hosts. Records from the eight real wrapper types (as_slice bytes, to_native, both comparison directions against the value and against a different value, size/alignment, bytes in a VolatileSlice after write_obj, read back) are validated by TLC: all values of the 16-bit types, structured patterns and random values for the wider ones.", "6 C20"),
  "C09": ("tlc-bitmap", "TLA+ specification of the bitmap as a set of page numbers, checked exhaustively by TLC for a small word (every start/length, every geometry) including the transcription of the range arithmetic; every transition of the small-scope state graph is replayed as a test on the real AtomicBitmap / Option / RefSlice / ArcSlice, and boundary-biased random histories (64-page boundaries, ranges near usize::MAX) recorded from the real code are validated by TLC against the same actions.", "6 C09"),
 }
 ENGINES = {
  "tlc-bitmap": ("/verif/spec/Bitmap.tla", "Bitmap as a set of page numbers"),
+ "tlc-addrarith": ("/verif/spec/AddrArith.tla", "address arithmetic: exact meaning, transcription, limb arithmetic"),
+ "tlc-endian": ("/verif/spec/Endian.tla", "endian wrappers as built by the macro, on both host byte orders"),
  "tlc-volatile": ("/verif/spec/Volatile.tla", "one volatile container and the accessor derivation chain, byte contents, dirty pages"),
  "tlc-guestmem": ("/verif/spec/GuestMem.tla", "guest memory as a flat sparse byte array over regions; try_access / find_region transcriptions"),
  "tlc-volatile+guestmem": ("/verif/spec/Volatile.tla + /verif/spec/GuestMem.tla", "both layers"),
@@ -34,7 +38,7 @@ m = {
  "hooks": {"guard": "--cfg vm_memory_verif",
            "enable": "rustflags in /verif/harness/.cargo/config.toml: --cfg vm_memory_verif (path dependency on /repo)",
            "baseline_off_cmd": "cd /repo && cargo test --workspace --no-fail-fast --offline",
-           "source_commits": [], "add_only": True},
+           "source_commits": ["d23bc8f"], "add_only": True},
  "engines": [], "checks": [], "not_applicable": [],
  "notes": "Model-based verification with explicit TLA+ specifications (see DESIGN.md). ./check <ID> quick|thorough; exit 0/1/2 = held / VIOLATION / tool error.",
 }
